@@ -10,6 +10,7 @@ import (
 	"strings"
 	"sync"
 	"sync/atomic"
+	"time"
 
 	"verif/lib/vlib"
 
@@ -618,7 +619,10 @@ func lqJobs() []*job {
 
 // ---- execution ---------------------------------------------------------------------------------
 
-func runUnits(units []unit, workers int) *agg {
+// runUnits evaluates the units on `workers` goroutines. Units not started before the deadline (zero =
+// none) are skipped and counted.
+func runUnits(units []unit, workers int, deadline time.Time) (*agg, int) {
+	var skipped int64
 	ch := make(chan unit, len(units))
 	for _, u := range units {
 		ch <- u
@@ -633,6 +637,10 @@ func runUnits(units []unit, workers int) *agg {
 			defer wg.Done()
 			a := newAgg()
 			for u := range ch {
+				if !deadline.IsZero() && time.Now().After(deadline) {
+					atomic.AddInt64(&skipped, 1)
+					continue
+				}
 				do := func(v uint64) {
 					j := u.j
 					fails, constructs := evalValue(j, v, nil)
@@ -673,7 +681,7 @@ func runUnits(units []unit, workers int) *agg {
 		}()
 	}
 	wg.Wait()
-	return total
+	return total, int(skipped)
 }
 
 // cellsTag compresses the set of failing cells: a parameter class alone when every value class
